@@ -173,8 +173,13 @@ func runC19(p *P, r *R) {
 						if rg, ok := nx.Iter.(*ssa.Range); ok && isLoadOf(rg.X, "listener.sessions") {
 							reset := false
 							for _, si := range findInstrs(f, mStoreWord("listener.sessions")) {
-								if _, isMk := si.(*ssa.Store).Val.(*ssa.MakeMap); isMk && held[si] && p.reaches(di, si, nil) {
-									reset = true
+								if _, isMk := si.(*ssa.Store).Val.(*ssa.MakeMap); isMk && held[si] {
+									if p.reaches(di, si, nil) {
+										reset = true // drain, then reset
+									}
+									if ld, okl := rg.X.(ssa.Instruction); okl && instrDominates(ld, si) && instrDominates(si, di) {
+										reset = true // table taken and replaced first, then drained (same critical section)
+									}
 								}
 							}
 							if reset {
